@@ -47,6 +47,35 @@ def is_subquery(segment: BaseSegment) -> bool:
     return False
 
 
+def is_bracketed_subquery(bracketed: BaseSegment) -> bool:
+    """
+    the bracket holds a query and nothing else, unlike the bracket of f((SELECT ...), x) which merely contains one
+    """
+    content = [
+        seg
+        for seg in bracketed.segments
+        if not seg.is_meta and not is_negligible(seg) and seg.type != "symbol"
+    ]
+    if len(content) != 1:
+        return False
+    if content[0].type in (
+        "select_statement",
+        "set_expression",
+        "with_compound_statement",
+    ):
+        return True
+    if content[0].type == "bracketed":
+        return is_bracketed_subquery(content[0])
+    if content[0].type == "expression":
+        # some dialects wrap the query of a scalar subquery into an expression
+        inner = [seg for seg in content[0].segments if not is_negligible(seg)]
+        return len(inner) == 1 and (
+            inner[0].type == "select_statement"
+            or (inner[0].type == "bracketed" and is_bracketed_subquery(inner[0]))
+        )
+    return False
+
+
 def is_wildcard(segment: BaseSegment) -> bool:
     return segment.type == "wildcard_expression" or (
         segment.type == "symbol" and segment.raw == "*" and segment.get_type() == "star"
@@ -170,6 +199,17 @@ def list_subqueries(segment: BaseSegment) -> list[SubQueryTuple]:
                 for bracketed in function.recursive_crawl("bracketed"):
                     if is_subquery(bracketed):
                         subquery.append(SubQueryTuple(bracketed, None))
+            # a subquery anywhere else in the element: ELSE branch, function argument or operand inside an expression
+            found = {id(extract_innermost_bracketed(sq.parenthesis)) for sq in subquery}
+            for bracketed in select_clause_element.recursive_crawl(
+                "bracketed", no_recursive_seg_type="select_statement"
+            ):
+                if (
+                    is_bracketed_subquery(bracketed)
+                    and id(extract_innermost_bracketed(bracketed)) not in found
+                ):
+                    found.add(id(extract_innermost_bracketed(bracketed)))
+                    subquery.append(SubQueryTuple(bracketed, None))
     elif segment.type == "from_expression_element":
         as_segment, target = extract_as_and_target_segment(segment)
         if is_subquery(target):
